@@ -233,6 +233,10 @@ class PropertyRun:
             by_label.setdefault(v["label"], []).append(v)
         for label, vs in by_label.items():
             self._handle_violations(unit, label, vs, known)
+        # safety net: every obligation label that failed on some path must have been handled above
+        lost = sorted({lab for (lab, st), n in agg.obl.items() if st == "violated" and n} - set(by_label))
+        if lost:
+            self.inconclusive.append(f"{unit.name}: {len(lost)} failed obligation label(s) without a stored counterexample (e.g. '{lost[0][:160]}')")
         # 3. witness replay (solver-chosen inputs through the unpatched code)
         wfail = 0
         for mi in agg.witnesses[:200]:
